@@ -105,6 +105,7 @@ class FakeNet:
         self.peer_factory = peer_factory
         self.connections = []
         self.attempts = []
+        self.attempt_threads = []     # name of the thread making each attempt
         self.socket = types.SimpleNamespace(**{k: getattr(_socket, k) for k in dir(_socket) if not k.startswith('__')})
         self.socket.create_connection = self.create_connection
         self.select = types.SimpleNamespace(select=self.do_select, error=_select.error)
@@ -114,6 +115,7 @@ class FakeNet:
         if s:
             s.yield_point('sock.connect')
         self.attempts.append((s.now if s else None, addr))
+        self.attempt_threads.append(getattr(s.cur, 'name', '?') if s else '?')
         peer = self.peer_factory(addr, len(self.attempts) - 1)
         if peer is None:
             raise ConnectionRefusedError(111, 'Connection refused')
